@@ -761,6 +761,12 @@ func vwOpening(region int, anyKeys bool) {
 	zzverif.Assert(bytes.Equal(vwAddrScript(k.fundAddr), w.want), "C08.lnd_funded_address_pays_swap_script")
 
 	zzverif.Assert(len(k.published) <= 1, "C08.lnd_at_most_one_broadcast")
+	if region == vwChangeAmountFirst {
+		// GetVoutAndVerify (first output carrying the amount) cannot point to the swap output of this
+		// transaction: the adapter must fail and must not broadcast it
+		zzverif.Assert(err != nil, "C08.lnd_unlocatable_swap_output_is_an_error")
+		zzverif.Assert(len(k.published) == 0, "C08.lnd_unlocatable_swap_output_not_broadcast")
+	}
 	if err != nil {
 		zzverif.Assert(rawTxHex == "" && txId == "" && addr == "" && fee == 0 && vout == 0, "C08.lnd_nothing_returned_on_error")
 		return
@@ -808,15 +814,19 @@ func vwOpening(region int, anyKeys bool) {
 // when an input is nested segwit, i.e. when the PSBT's unsigned transaction has ANOTHER id —,
 // vout = index of the swap output in that transaction (the output GetVoutAndVerify accepts: Amount
 // to the swap script), fee = sum of PSBT input values - sum of its outputs.
-// Bounds: 1..3 outputs (swap output at any position), 1..2 inputs each native or nested segwit.
+// Bounds: 1..3 outputs (swap output at any position), 1..2 inputs each native or nested segwit;
+// fixed distinct keys and payment hash (arbitrary ones: H_C08_T_lndOpening).
 // Region: no CHANGE output carries exactly the swap amount (the complement is
 // H_C08_lndOpeningChangeEqualsAmount).
 func H_C08_lndOpening() { vwOpening(vwChangeNotAmount, false) }
 
-// H_C08_lndOpeningChangeEqualsAmount: the same property on the complementary region: some change
-// output placed IN FRONT of the swap output carries exactly the swap amount.  (A change output of
-// that value BEHIND the swap output is harmless and belongs to neither region's interest; it is
-// covered here only together with one in front.)
+// H_C08_lndOpeningChangeEqualsAmount: the complementary region: a change output IN FRONT of the
+// swap output carries exactly the swap amount, so GetVoutAndVerify (which looks at the first
+// output carrying the amount) cannot point to the swap output: besides everything above
+// ("success => returned values describe the broadcast transaction"), the adapter returns an error
+// and broadcasts nothing.  (Found a defect: before e518e46 the adapter dropped the boolean,
+// broadcast and reported vout 0.)  A change output of that value BEHIND the swap output is
+// harmless; it is covered here only together with one in front.
 func H_C08_lndOpeningChangeEqualsAmount() { vwOpening(vwChangeAmountFirst, false) }
 
 // ---------------------------------------------------------------------------------------
@@ -829,13 +839,17 @@ const (
 	vwCoop     = 2
 )
 
-// vwOpeningTx draws an opening transaction that passed validation: 1..3 outputs (bound), the swap
-// output (Amount, swap script) at index k, no output in front of it with value == Amount (the
+// vwOpeningTx draws an opening transaction that passed validation: 1..maxOuts outputs (bound), the
+// swap output (Amount, swap script) at index k, no output in front of it with value == Amount (the
 // validator and GetVoutAndVerify look at the FIRST output carrying the amount), arbitrary outputs
-// around it.  Returns its hex and k.
-func vwOpeningTx(w *vwWorld) (string, int, *wire.MsgTx) {
-	n := 3 - zzverif.Choice("opening.outputs_below_max", 3)
+// around it.  amountInFront: instead an opening transaction that does NOT pass validation: output
+// 0, in front of the swap output, carries the amount with another script.  Returns its hex and k.
+func vwOpeningTx(w *vwWorld, maxOuts int, amountInFront bool) (string, int, *wire.MsgTx) {
+	n := maxOuts - zzverif.Choice("opening.outputs_below_max", maxOuts)
 	k := zzverif.Choice("opening.swap_index", n)
+	if amountInFront && k == 0 {
+		zzverif.Assume(false)
+	}
 	tx := wire.NewMsgTx(2)
 	h := vwCoinTxid(0)
 	tx.AddTxIn(wire.NewTxIn(wire.NewOutPoint(&h, zzverif.U32("opening.in_vout")), nil, nil))
@@ -845,8 +859,11 @@ func vwOpeningTx(w *vwWorld) (string, int, *wire.MsgTx) {
 			continue
 		}
 		v := zzverif.I64("opening.other_value")
-		if i < k {
+		if i < k && !(amountInFront && i == 0) {
 			zzverif.Assume(v != int64(w.params.Amount))
+		}
+		if amountInFront && i == 0 {
+			zzverif.Assume(v == int64(w.params.Amount))
 		}
 		tx.AddTxOut(wire.NewTxOut(v, zzverif.Bytes("opening.other_script", 22)))
 	}
@@ -858,9 +875,9 @@ func vwOpeningTx(w *vwWorld) (string, int, *wire.MsgTx) {
 	return hex.EncodeToString(blob), k, tx
 }
 
-func vwSpend(kind int, anyKeys bool) {
+func vwSpend(kind int, maxOuts int, anyKeys bool) {
 	cl, w := vwSetup(anyKeys)
-	openHex, k, openTx := vwOpeningTx(w)
+	openHex, k, openTx := vwOpeningTx(w, maxOuts, false)
 	preimage := vwFill(0x44, 32)
 	if anyKeys {
 		preimage = zzverif.Bytes("preimage", 32)
@@ -987,7 +1004,40 @@ func vwSpend(kind int, anyKeys bool) {
 // value Amount-200-fee (fee = rate*156, coop: rate*250 unless that is 0); the signer(s) signed
 // exactly once the sighash of (redeem script, input 0, SIGHASH_ALL, Amount) of that transaction;
 // witness = [sig|01, preimage, "", "", script] / [sig|01, script] / [taker sig|01, own sig|01, "", script].
-// Bounds: opening tx <= 3 outputs; fee rate whole 0..65535 sat/vB.
-func H_C03_lndSpendPreimage() { vwSpend(vwPreimage, false) }
-func H_C03_lndSpendCsv()      { vwSpend(vwCsv, false) }
-func H_C03_lndSpendCoop()     { vwSpend(vwCoop, false) }
+// Bounds: opening tx <= 3 outputs (coop quick: <= 2); fee rate whole 0..65535 sat/vB; quick tier: fixed
+// distinct keys, payment hash and preimage (arbitrary ones: the _T_ entries and, for the builder,
+// H_C03_btc*Spend in harness/onchain).
+func H_C03_lndSpendPreimage() { vwSpend(vwPreimage, 3, false) }
+func H_C03_lndSpendCsv()      { vwSpend(vwCsv, 3, false) }
+func H_C03_lndSpendCoop()     { vwSpend(vwCoop, 2, false) }
+
+// Thorough tier: arbitrary keys / payment hash / preimage (maker != taker), <= 3 outputs.
+func H_C03_T_lndSpendPreimage() { vwSpend(vwPreimage, 3, true) }
+func H_C03_T_lndSpendCsv()      { vwSpend(vwCsv, 3, true) }
+func H_C03_T_lndSpendCoop()     { vwSpend(vwCoop, 3, true) }
+func H_C08_T_lndOpening()       { vwOpening(vwChangeNotAmount, true) }
+
+// H_C03_lndSpendUnvalidatedOpening: an opening transaction that would NOT pass validation (2..3
+// outputs, output 0 carries the amount with another script, the swap output sits behind it): each
+// of the three adapters returns an error, broadcasts nothing and asks nobody to sign.
+func H_C03_lndSpendUnvalidatedOpening() {
+	cl, w := vwSetup(false)
+	openHex, _, _ := vwOpeningTx(w, 3, true)
+	own := vwNewSigner(w, "own_signature", 0x31)
+	peer := vwNewSigner(w, "taker_signature", 0x32)
+	claim := &swap.ClaimParams{Preimage: hex.EncodeToString(vwFill(0x44, 32)), Signer: own, OpeningTxHex: openHex}
+	var txId, txHex, addr string
+	var err error
+	switch zzverif.Choice("adapter", 3) {
+	case vwPreimage:
+		txId, txHex, addr, err = cl.CreatePreimageSpendingTransaction(w.params, claim)
+	case vwCsv:
+		txId, txHex, addr, err = cl.CreateCsvSpendingTransaction(w.params, claim)
+	default:
+		txId, txHex, addr, err = cl.CreateCoopSpendingTransaction(w.params, claim, peer)
+	}
+	zzverif.Assert(err != nil, "C03.lnd_unvalidated_opening_is_an_error")
+	zzverif.Assert(len(w.kit.published) == 0, "C03.lnd_unvalidated_opening_nothing_broadcast")
+	zzverif.Assert(len(own.hashes) == 0 && len(peer.hashes) == 0, "C03.lnd_unvalidated_opening_nothing_signed")
+	zzverif.Assert(txId == "" && txHex == "" && addr == "", "C03.lnd_unvalidated_opening_nothing_returned")
+}
